@@ -1584,7 +1584,8 @@ Section Editor.
         | Some c2 =>
           match c2 with
           | CQuotedInsert => (edo ch <- next_char; edit_insert ch 1 ;;; main_loop f)
-          | CSuspend => main_loop f      (* not driven: would stop the process *)
+          | CSuspend => refresh_line ;;; main_loop f      (* the terminal is restored, the process signals itself (not
+                                                             modelled: it would stop), raw mode is entered again, the line redrawn *)
           | _ =>
             edo st <- execute c2;
             match st with
